@@ -16,7 +16,7 @@ RULE = ('each run executes the real asm.cli_main() in-process on SimFS with a ge
         'the run failed with pre-existing files present, or succeeded and had its outputs checked against the API; distinct = '
         '(outcome, failing pass, injection kind, option set, pre-existing set) signatures')
 COMPONENTS = {'real': ['bronzebeard/asm.py (cli_main, argparse, all passes)', 'intelhex.bin2hex (open redirected to SimFS)', 'logging'],
-              'stub': ['file system and cwd (SimFS; a sample of scenarios is cross-checked against the real file system in a subprocess)']}
+              'stub': ['file system and cwd (SimFS; a sample of scenarios - reach counter xval:sim-and-real-agree - is executed on SimFS and on a private real temp tree and must end identically)']}
 ASSUMPTIONS = ['crash points are confined to the dynamic extent of assemble() plus the CLI\'s own option validation (that is what "failures raised from every pass" covers)',
                'write-phase I/O faults (ENOSPC, EIO, missing output directory) and hex offsets with no Intel HEX representation are observations, not verdicts',
                'the -l file is judged as: one line per label, the label name and an integer in any base equal to the API\'s labels dict']
